@@ -18,6 +18,25 @@ EXPLANATION = (
 LEVEL_NOTE = "Undecided: equality of the resulting trees for different splittings of a series."
 
 
+def copy_chain(fn, op):
+    """Locals holding the very same value as operand `op`: followed backwards through plain copies / moves and through the
+    Continue payload of a `?` (but not through arithmetic or calls)."""
+    out = set()
+    cur = op
+    for _ in range(12):
+        if cur.get("k") not in ("copy", "move"):
+            break
+        pl = cur["pl"]
+        out.add(pl["l"])
+        if "p" in pl:
+            break
+        one = df.defs_of(fn).single(pl["l"])
+        if not one or one[0] != "stmt" or one[3]["rv"]["k"] != "use":
+            break
+        cur = one[3]["rv"]["op"]
+    return out
+
+
 def run(ck):
     prog, cg = ck.prog, ck.cg
     cmd_push = ck.anchor(A["cmd_push"])
@@ -81,8 +100,16 @@ def run(ck):
             continue   # the applied prefix slice, see C05-R1
         ok_lo = False
         detail = df.show(lo)
-        if isinstance(lo, tuple) and lo[0] == "local":
-            defs = df.all_def_exprs(cmd_push, lo[1])
+        through_try = df.try_payload_defs(cmd_push, lo)
+        if through_try is not None or (isinstance(lo, tuple) and lo[0] == "local"):
+            defs = [x for x, _ in through_try] if through_try is not None else df.all_def_exprs(cmd_push, lo[1])
+            flat = []
+            for dx in defs:         # a payload that is itself a local with several definitions (if / else inside the helper)
+                if isinstance(dx, tuple) and dx and dx[0] == "local":
+                    flat += df.all_def_exprs(cmd_push, dx[1]) or [dx]
+                else:
+                    flat.append(dx)
+            defs = flat
             kinds = []
             for dx in defs:
                 if dx == ("const", 0, "usize"):
@@ -93,12 +120,38 @@ def run(ck):
                 else:
                     kinds.append("other:" + df.show(dx, 80))
             ok_lo = sorted(set(kinds)) == ["len(applied)", "zero"]
-            detail = "%s := %s" % (lo[2], kinds)
+            detail = "%s := %s" % (lo[2] if lo[0] == "local" else "first patch", kinds)
         ck.require(ok_lo, "C09-R2", "lower bound = number of names already in .pc/applied-patches",
                    "the range pushed starts at %s" % detail, cmd_push.where(t), ok_detail=detail)
         ok_hi = False
         hdetail = df.show(hi)
-        if isinstance(hi, tuple) and hi[0] == "local" and isinstance(lo, tuple) and lo[0] == "local":
+        # locals that carry the lower bound (the named variable, the payload of `helper(..)?`, ...)
+        lo_locals = set()
+        rl = t["args"][1]["pl"]["l"] if t["args"][1].get("k") in ("copy", "move") and "p" not in t["args"][1]["pl"] else None
+        one = df.defs_of(cmd_push).single(rl) if rl is not None else None
+        if one and one[0] == "stmt" and one[3]["rv"]["k"] == "agg" and len(one[3]["rv"]["ops"]) == 2:
+            lo_locals = copy_chain(cmd_push, one[3]["rv"]["ops"][0])
+        if isinstance(lo, tuple) and lo[0] == "local":
+            lo_locals.add(lo[1])
+        hi_try = df.try_payload_defs(cmd_push, hi)
+        hi_defs = None
+        if hi_try is not None:
+            pls = {x for x, _ in hi_try}
+            if len(pls) == 1 and isinstance(next(iter(pls)), tuple) and next(iter(pls))[0] == "local":
+                hi = next(iter(pls))
+            elif all(b_ is not None for _, b_ in hi_try):
+                # the helper returns Ok(<expression>) on each arm: one "definition" per aggregate
+                hi_defs = [{"bb": b_, "ex": x_, "locs": set(df.trace_locals(cmd_push, [y[1] for y in df.walk(x_) if isinstance(y, tuple) and y and y[0] in ("local", "param")])),
+                            "res": None} for x_, b_ in hi_try]
+        if hi_defs is None and isinstance(hi, tuple) and hi[0] == "local":
+            hi_defs = []
+            for dd in df.defs_of(cmd_push).all(hi[1]):
+                hi_defs.append({"bb": dd[1],
+                                "ex": df.rvalue_expr(cmd_push, dd[3]["rv"]) if dd[0] == "stmt" else df.call_expr(cmd_push, dd[2]),
+                                "locs": set(df.trace_locals(cmd_push, df._rv_locals(dd[3]["rv"]) if dd[0] == "stmt" else
+                                                            [x for a in dd[2]["args"] for x in df._operand_locals(a)])),
+                                "res": dd[3]["lhs"]["l"] if dd[0] == "stmt" else dd[2]["dest"]["l"]})
+        if hi_defs is not None and lo_locals:
             goal_sw = pt.discr_switches(cmd_push, lambda e_, rv: (rv.get("adt") or "").endswith("cmd::PushGoal"))
             arms = {}
             for sw in goal_sw:
@@ -106,13 +159,12 @@ def run(ck):
                     arms.setdefault(v, set()).update(cfg.dominated_by_edge(cmd_push, edge))
             kinds = []
             bad = []
-            for dd in df.defs_of(cmd_push).all(hi[1]):
-                arm = [v for v, blocks in arms.items() if dd[1] in blocks]
-                locs = df.trace_locals(cmd_push, df._rv_locals(dd[3]["rv"]) if dd[0] == "stmt" else
-                                       [x for a in dd[2]["args"] for x in df._operand_locals(a)])
-                ex = df.rvalue_expr(cmd_push, dd[3]["rv"]) if dd[0] == "stmt" else df.call_expr(cmd_push, dd[2])
+            for hd in hi_defs:
+                arm = [v for v, blocks in arms.items() if hd["bb"] in blocks]
+                locs = hd["locs"]
+                ex = hd["ex"]
                 if arm == ["Count"]:
-                    uses_first = lo[1] in locs
+                    uses_first = bool(lo_locals & set(locs)) or df.mentions(ex, lambda y: y == lo)
                     uses_n = df.mentions(ex, lambda x: isinstance(x, tuple) and x[0] == "downcast" and x[2] == "Count")
                     if uses_first and uses_n:
                         kinds.append("Count: depends on first_patch and n")
@@ -125,7 +177,7 @@ def run(ck):
                     an = ranges.Analyzer(prog)
                     base_path = an.cpath(cmd_push, t["args"][0]["pl"], None) if t["args"][0].get("k") in ("copy", "move") else None
                     pos = [(b2, t2) for b2, t2 in cmd_push.calls() if (callee_of(t2).get("rpath") or "").endswith("Iterator>::position")
-                           and t2["dest"]["l"] in df.trace_locals(cmd_push, [dd[3]["lhs"]["l"]] if dd[0] == "stmt" else [dd[2]["dest"]["l"]])]
+                           and (t2["dest"]["l"] in (df.trace_locals(cmd_push, [hd["res"]]) if hd["res"] is not None else locs))]
                     if not pos:
                         kinds.append("UpTo: %s" % df.show(ex, 60))
                     for b2, t2 in pos:
@@ -134,8 +186,8 @@ def run(ck):
                         offset_added = False
                         if not same and sp is not None:
                             # sub-slice produced by split_at(base, a) / base[a..]: accept when `a` is added to the index
-                            offset_added = lo[1] in locs and df.mentions(ex, lambda x: isinstance(x, tuple) and x[0] == "bin" and x[1].startswith("Add") and
-                                                                         any(y == lo for y in x[2:4]))
+                            offset_added = bool(lo_locals & set(locs)) and df.mentions(ex, lambda x: isinstance(x, tuple) and x[0] == "bin" and x[1].startswith("Add") and
+                                                                                     any(y == lo or (isinstance(y, tuple) and y[0] == "local" and y[1] in lo_locals) for y in x[2:4]))
                         if same or offset_added:
                             kinds.append("UpTo: position in the sliced series + 1")
                         else:
